@@ -835,7 +835,10 @@ class Prop:
                 allow |= allowed(c)
                 if declared:
                     allow |= allowed((c[1], c[0], *c[2:]))
-            if all(c in requested for c in must):
+            # "cached" is what the product's own memo holds right now (a view may still serve an element that was evicted
+            # from the product itself)
+            was_cached = target is P and all(c in requested and c in P._data for c in must)
+            if was_cached:
                 bump("repeat_cached")
             n0 = len(log)
             cur["cells"] = must if target is P else None
@@ -856,7 +859,7 @@ class Prop:
             new = log[n0:]
             if any(f.get("chain_dep") for f in case["factors"]):
                 new = []  # nested evaluations of a recurrent factor are not requests of the product
-            if all(c in requested for c in must) and new:
+            if was_cached and new:
                 fail("cached-product-reevaluates", f"op#{opi} {op}: repeated request evaluated factor elements {new[:3]}")
             requested.update(must)
             # (3) discipline (not for view factors: a packed view evaluates the whole block row/column of an order)
